@@ -388,6 +388,12 @@ func runC12(c *Ctx, r *Report) {
 	r.Doc("R-C12.5", "in the decode closure a return with a non-nil error carries a nil value (callers filter failed blocks by the value)")
 	r.Doc("R-C12.6", "a block that fails to load or decode costs nothing but itself: the worker still returns its slot, decrements the in-progress counter and wakes the dispatcher on that path")
 	importRules(c, r, "C11", []string{"R-C11.1", "R-C11.6"}, "R-C12.6")
+	r.Doc("R-C12.9", "no function taken from a table is called without a presence test (a version or type the table does not list yields a nil function)")
+	noCallThroughUncheckedLookup(c, r, "R-C12.9", func(fn *Fn) bool {
+		return inPkgs(c.P, fn, "entry", "io/cbor", "io/jsonable", "io/pb", "identityprovider", "keystore", "")
+	})
+	r.Doc("R-C12.10", "a copied entry has a clock whenever the original has one (the copy is what Verify hands to the codec under a link key)")
+	entryCopyFieldwise(c, r, "R-C12.10")
 	r.Doc("R-C12.8", "verifying a decoded entry keeps no state between calls (adopted from C07: a remembered failed key parse is a nil the next verification dereferences)")
 	importRules(c, r, "C07", []string{"R-C07.6"}, "R-C12.8", 0) // an expected-zero rule: nothing to adopt on a clean tree
 	r.Doc("R-C12.7", "on the decode path every error result is examined before the next step overwrites it: a failed step never hands its zero values on as if it had succeeded")
